@@ -31,6 +31,7 @@ def run(rep, prog, tier):
 
     check_derive_key(rep, prog)
     families.check_algorithm_ids(rep, prog, 'C12.2')
+    s2kshape.check_digest_sizes(rep, prog, 'C12.2')
     # C12.3
     s2kshape.check_count(rep, prog, 'C12.3')
     # C12.4
